@@ -3,7 +3,7 @@ import Heph.Spec.Oracle
 oracle model. -/
 namespace Heph.Oracle
 
-/-- results of the model are compared by `decide` in the examples and counterexamples -/
+-- results of the model are compared by `decide` in the examples and counterexamples
 deriving instance DecidableEq for Except
 
 /-- pids of a batch are keys of a dict: a pid names one program -/
